@@ -12,6 +12,7 @@
 From Coq Require Import ZArith QArith List Bool Permutation Sorted String.
 From RV Require Import Base.Wire Base.Text Lang.Order Proofs.OrderP.
 From RV Require Import Gen.SetSites Lang.OrderSites Proofs.OrderSitesP Lang.DevSession Proofs.DevSessionP.
+From RV Require Import Lang.RetJoin Proofs.RetJoinP.
 From RV Require Lang.SortKey Proofs.SortKeyP Lang.MemoSession Proofs.MemoSessionP.
 From RV Require Lang.EmitSession Proofs.EmitSessionP Lang.VariantSession Proofs.VariantSessionP Gen.PuritySites Lang.PuritySites Proofs.PuritySitesP.
 Import ListNotations.
@@ -107,6 +108,35 @@ Print Assumptions C10_sorted_site_spec.
 Theorem C10_pop_of_singleton : forall s x, perm_oracle s -> pop_site s [x] = Some x.
 Proof. exact pop_site_singleton. Qed.
 Print Assumptions C10_pop_of_singleton.
+
+(* ---------------------------------------------------------------- a VALUE chosen from a set: the join of the return types of a
+   function (_merge_return_types).  The label that becomes the C++ return type - and the declared type of every variable assigned
+   from a call - depends neither on the enumeration of the set of inferred types nor on its iteration order: every set, no guard *)
+Theorem C10_return_type_join_order_independent : forall s1 s2 u u' has_void,
+  perm_oracle s1 -> perm_oracle s2 -> Permutation u u' -> merge_ret s1 u has_void = merge_ret s2 u' has_void.
+Proof. exact merge_ret_independent. Qed.
+Print Assumptions C10_return_type_join_order_independent.
+
+(* the guard `len(unique) == 1` in front of the pop() is what buys it: with the pop() unconditional, a function returning lists of
+   two element types gets list[int] under one iteration order and list[float] under another (the code as it is says int for both) *)
+Theorem C10_unguarded_pop_refuted :
+  exists s1 s2 u, perm_oracle s1 /\ perm_oracle s2 /\ NoDup u /\
+    merge_ret_pop s1 u false = JTy (txt "list[int]") /\ merge_ret_pop s2 u false = JTy (txt "list[float]") /\
+    merge_ret s1 u false = JTy l_int /\ merge_ret s2 u false = JTy l_int.
+Proof. exact merge_ret_pop_refuted. Qed.
+Print Assumptions C10_unguarded_pop_refuted.
+
+(* ... and it would be harmless exactly where a String / float / int label or at most one label is in the set *)
+Theorem C10_unguarded_pop_partial : forall s1 s2 u u' has_void,
+  perm_oracle s1 -> perm_oracle s2 -> Permutation u u' -> one_list_type u = true ->
+  merge_ret_pop s1 u has_void = merge_ret_pop s2 u' has_void.
+Proof. exact merge_ret_pop_partial. Qed.
+Print Assumptions C10_unguarded_pop_partial.
+
+Example C10_unguarded_pop_partial_nonvacuous :
+  one_list_type [txt "list[int]"; txt "int"; txt "bool"] = true /\ one_list_type [txt "list[int]"; txt "list[bool]"] = false.
+Proof. exact one_list_type_example. Qed.
+Print Assumptions C10_unguarded_pop_partial_nonvacuous.
 
 (* ---------------------------------------------------------------- statelessness (by construction; the content is the tie) *)
 Theorem C10_pure : forall sigma before p after,
